@@ -64,8 +64,11 @@ Definition invb (w : world) (l : lst) (i : option inj) (s : st) : bool :=
    end) &&
   (if done s then match wire s, raw s with Some a, Some b => true | _, _ => true end else true).
 
-Ltac simp := cbn -[N.add N.eqb bytes_eqb Nat.eqb] in *;
-  rewrite ?N.eqb_refl, ?bytes_eqb_refl, ?orb_false_r, ?andb_true_r, ?orb_true_r, ?andb_false_r in *.
+Opaque N.eqb bytes_eqb Nat.eqb N.add.
+Ltac simp := cbn in *;
+  try (rewrite ?N.eqb_refl, ?bytes_eqb_refl, ?orb_false_r, ?andb_true_r, ?orb_true_r, ?andb_false_r in * ).
+Ltac simph := cbn in * |-;
+  try (rewrite ?orb_false_r, ?andb_true_r, ?orb_true_r, ?andb_false_r in * |- ).
 Ltac split_hyps := repeat match goal with H : andb _ _ = true |- _ => apply andb_prop in H; destruct H end.
 Ltac contra := match goal with
   | H : false = true |- _ => discriminate H
@@ -82,28 +85,169 @@ Ltac dmh :=
   match goal with
   | H : context [match ?x with _ => _ end] |- _ => is_var x; destruct x
   end.
-Ltac exec := repeat (simp; try contra; split_hyps; try contra; dmg; rec_destr).
+Ltac quick := split_hyps; try contra; repeat (apply andb_true_intro; split); try reflexivity; try assumption.
 Ltac leaf := repeat (simp; try contra; split_hyps; try contra;
                      repeat (apply andb_true_intro; split); try reflexivity; try assumption; try dmg; rec_destr).
 Ltac leaf2 := repeat (simp; try contra; split_hyps; try contra;
                      repeat (apply andb_true_intro; split); try reflexivity; try assumption; try dmh; rec_destr).
-Ltac solve_op :=
-  exec;
-  repeat match goal with L : Some _ = Some _ |- _ => injection L as <- end;
-  try contra;
-  (split; [try reflexivity|]); leaf; leaf2.
+Ltac fixl := repeat match goal with L : Some ?a = Some ?b |- _ => assert (b = a) by congruence; subst b; clear L end.
 
+(* the result of the step, kept folded so that it is evaluated head-first along one path at a time *)
+Definition okp (w : world) (l' : lst) (i' : option inj) (X : st * res unit) : Prop :=
+  is_panic (snd X) = false /\ invb w l' i' (fst X) = true.
 Definition ok_after (w : world) (l : lst) (i : option inj) (s : st) (o : op) (l' : lst) : Prop :=
-  is_panic (snd (step w o s)) = false /\ invb w l' (inj_next i o) (fst (step w o s)) = true.
+  okp w l' (inj_next i o) (step w o s).
+
+Ltac use_hyps := repeat match goal with H : ?b = true |- context [?b] => rewrite H end;
+                 rewrite ?N.eqb_refl, ?bytes_eqb_refl.
+Ltac head_eval :=
+  match goal with
+  | |- okp ?w ?l ?i ?T => let t := eval hnf in T in
+                         let t2 := eval lazy beta iota zeta delta [sessions_off should_update_binders is_some cst_eqb bstatus_eqb negb orb andb optN_eqb slot_obj demote option_map Session.o_user Session.o_init Session.o_data Session.o_sess Session.cache Session.status Session.applied Session.cs Session.locked Session.tracker Session.calling Session.own_t Session.own_p Session.x_t Session.x_p Session.hs_sess Session.hs_ticket Session.hs_ident Session.hs_early Session.gen Session.keys Session.share Session.raw Session.done Session.herr Session.wire Session.w_golang Session.w_tickets Session.w_psk Session.w_psk_last Session.w_skip Session.w_tls13 Session.w_cache0 Session.w_disabled Session.w_omit Session.w_hit Session.w_srv13 Session.w_reapply fst snd mbind uassert when ret get upd merr mpanic] in t in change (okp w l i t2)
+  end.
+Ltac hd t := lazymatch t with
+  | ?f _ => hd f
+  | match ?c with _ => _ end => hd c
+  | _ => t
+  end.
+Ltac unstick t :=
+  let h := hd t in
+  lazymatch h with
+  | N.eqb => match t with context [N.eqb ?a ?b] => destruct (N.eqb a b) eqn:? end
+  | bytes_eqb => match t with context [bytes_eqb ?a ?b] => destruct (bytes_eqb a b) eqn:? end
+  | Nat.eqb => match t with context [Nat.eqb ?a ?b] => destruct (Nat.eqb a b) eqn:? end
+  | _ => first [ is_var h; destruct h | unfold h ]
+  end.
+Ltac hstep :=
+  head_eval; use_hyps;
+  lazymatch goal with
+  | |- okp _ _ _ (pair _ _) => fail
+  | |- okp _ _ _ ?t => unstick t
+  end; rec_destr; simph; try contra; split_hyps; try contra.
+Ltac hexec := repeat hstep.
+
+Ltac resolveL :=
+  repeat (cbn in * |-; try contra;
+          match goal with
+          | L : ?lhs = Some _ |- _ =>
+              match lhs with context [?x] => is_var x; lazymatch type of x with bool => destruct x end end
+          end); cbn in * |-; try contra; fixl.
+
+Ltac finish := repeat (first [dmg | dmh]; rec_destr; simp; try contra; split_hyps; try contra;
+                        repeat (apply andb_true_intro; split); try reflexivity; try assumption).
+Ltac solve_op :=
+  hexec; unfold okp; simp; try contra;
+  (split; [try reflexivity|]); quick; leaf; leaf2; finish.
+(* worlds of predefined parrots, made explicit *)
+Ltac world_cases :=
+  match goal with W : world_ok _ = true |- _ => unfold world_ok in W; cbn in W end;
+  split_hyps;
+  repeat match goal with
+         | H : negb ?x = true |- _ => is_var x; destruct x; [discriminate H | clear H]
+         | H : ?x = true |- _ => is_var x; subst x
+         | H : ?x = false |- _ => is_var x; subst x
+         end;
+  match goal with
+  | t : nat |- _ => destruct t as [|[|t]]; cbn in *; try contra
+  end;
+  repeat match goal with
+         | H : _ || _ = true |- _ => apply orb_prop in H; destruct H
+         end;
+  split_hyps; try contra;
+  repeat match goal with
+         | H : negb ?x = true |- _ => is_var x; destruct x; [discriminate H | clear H]
+         | H : ?x = true |- _ => is_var x; subst x
+         end; try contra.
 
 Ltac start :=
-  intros w l i s l' W G H L; destruct w, s, l;
-  unfold ok_after, world_ok, invb, legal_step, forbidden, setter_arg, step, inj_next, inj_of in *; simp; subst.
+  intros w l i s l' W G H L; destruct w, l; cbn in G; world_cases; destruct s;
+  unfold ok_after, legal_step, forbidden, setter_arg, inj_next, inj_of in *; cbn in L; resolveL;
+  unfold invb in H; simph; split_hyps; try contra.
 
+(* ---- preservation, operation by operation (the two builds and Handshake are in SessionBuildP / SessionHsP) ---- *)
 Lemma ok_SetCache : forall w l i s l', world_ok w = true -> w_golang w = false -> invb w l i s = true ->
   legal_step w l SetCache = Some l' -> ok_after w l i s SetCache l'.
-Proof. start. Time solve_op. all: idtac "REMAIN SetCache". Show 1. Admitted.
+Proof. start. all: solve_op. Qed.
 
 Lemma ok_SetTicket : forall e w l i s l', world_ok w = true -> w_golang w = false -> invb w l i s = true ->
   legal_step w l (SetTicket e) = Some l' -> ok_after w l i s (SetTicket e) l'.
-Proof. intros e. destruct e as [[[ii d] se]|]; start. all: Time solve_op. all: idtac "REMAIN SetTicket". Show 1. Admitted.
+Proof. intros e. destruct e as [[[ii d] se]|]; start. all: solve_op. Qed.
+
+Lemma ok_SetPsk : forall e w l i s l', world_ok w = true -> w_golang w = false -> invb w l i s = true ->
+  legal_step w l (SetPsk e) = Some l' -> ok_after w l i s (SetPsk e) l'.
+Proof. intros e. destruct e as [[[ii d] se]|]; start. all: solve_op. Qed.
+
+Lemma ok_SetState : forall e w l i s l', world_ok w = true -> w_golang w = false -> invb w l i s = true ->
+  legal_step w l (SetState e) = Some l' -> ok_after w l i s (SetState e) l'.
+Proof. intros e. destruct e as [[d se]|]; start. all: solve_op. Qed.
+
+(* ---- HelloGolang: the controller is only touched by the setters; crypto/tls loads the session itself ---- *)
+Definition invg (w : world) (l : lst) (s : st) : bool :=
+  negb (calling s) && negb (locked s) &&
+  (match status s with
+   | NotBuilt => true
+   | ByGo => is_some (share s) && optN_eqb (keys s) (share s)
+   | ByUtls => false
+   end) &&
+  (match tracker s with NeverCalled => true | _ => done s || herr s end) &&
+  Bool.eqb (l_cache l) (cache s) &&
+  (l_set l || cst_eqb (cs s) NoSession) &&
+  (if l_hs l then true else negb (done s) && negb (herr s)).
+
+Definition okg (w : world) (l' : lst) (X : st * res unit) : Prop :=
+  is_panic (snd X) = false /\ invg w l' (fst X) = true.
+
+Ltac head_evalg :=
+  match goal with
+  | |- okg ?w ?l ?T => let t := eval hnf in T in
+                        let t2 := eval lazy beta iota zeta delta [sessions_off should_update_binders is_some cst_eqb bstatus_eqb negb orb andb optN_eqb slot_obj demote option_map Session.o_user Session.o_init Session.o_data Session.o_sess Session.cache Session.status Session.applied Session.cs Session.locked Session.tracker Session.calling Session.own_t Session.own_p Session.x_t Session.x_p Session.hs_sess Session.hs_ticket Session.hs_ident Session.hs_early Session.gen Session.keys Session.share Session.raw Session.done Session.herr Session.wire Session.w_golang Session.w_tickets Session.w_psk Session.w_psk_last Session.w_skip Session.w_tls13 Session.w_cache0 Session.w_disabled Session.w_omit Session.w_hit Session.w_srv13 Session.w_reapply fst snd mbind uassert when ret get upd merr mpanic] in t in change (okg w l t2)
+  end.
+Ltac hstepg :=
+  head_evalg; use_hyps;
+  lazymatch goal with
+  | |- okg _ _ (pair _ _) => fail
+  | |- okg _ _ ?t => unstick t
+  end; rec_destr; simph; try contra; split_hyps; try contra.
+
+Lemma step_ok_golang : forall o w l s l', w_golang w = true -> invg w l s = true ->
+  legal_step w l o = Some l' -> okg w l' (step w o s).
+Proof.
+  intros o w l s l' G H L. destruct w, l. cbn in G. subst. destruct s.
+  unfold legal_step, forbidden, setter_arg in L.
+  destruct o as [| |[[[ii d] se]|]|[[[ii d] se]|]|[[d se]|]| |]; cbn in L; resolveL;
+  unfold invg in H; simph; split_hyps; try contra.
+  all: repeat hstepg; unfold okg; simp; try contra; (split; [try reflexivity|]); quick; leaf; leaf2; finish.
+Qed.
+
+(* ---- forbidden calls are rejected ---- *)
+Definition rejected (r : res unit) : bool :=
+  match r with
+  | Err 1 | Panic 1 | Panic 2 => true     (* E_DISABLED; P_LOCKED, P_STATE *)
+  | _ => false
+  end.
+Definition rejp (X : st * res unit) : Prop := rejected (snd X) = true.
+Ltac head_evalr :=
+  match goal with
+  | |- rejp ?T => let t := eval hnf in T in
+                   let t2 := eval lazy beta iota zeta delta [sessions_off should_update_binders is_some cst_eqb bstatus_eqb negb orb andb optN_eqb slot_obj demote option_map Session.o_user Session.o_init Session.o_data Session.o_sess Session.cache Session.status Session.applied Session.cs Session.locked Session.tracker Session.calling Session.own_t Session.own_p Session.x_t Session.x_p Session.hs_sess Session.hs_ticket Session.hs_ident Session.hs_early Session.gen Session.keys Session.share Session.raw Session.done Session.herr Session.wire Session.w_golang Session.w_tickets Session.w_psk Session.w_psk_last Session.w_skip Session.w_tls13 Session.w_cache0 Session.w_disabled Session.w_omit Session.w_hit Session.w_srv13 Session.w_reapply fst snd mbind uassert when ret get upd merr mpanic] in t in change (rejp t2)
+  end.
+Ltac hstepr :=
+  head_evalr; use_hyps;
+  lazymatch goal with
+  | |- rejp (pair _ _) => fail
+  | |- rejp ?t => unstick t
+  end; rec_destr; simph; try contra; split_hyps; try contra.
+
+Lemma forbidden_rejected : forall o w l i s, world_ok w = true -> w_golang w = false -> invb w l i s = true ->
+  forbidden w l o = true -> rejp (step w o s).
+Proof.
+  intros o w l i s W G H F. destruct w, l; cbn in G; world_cases; destruct s.
+  all: unfold forbidden, setter_arg in F.
+  all: destruct o as [| |[[[ii d] se]|]|[[[ii d] se]|]|[[d se]|]| |]; cbn in F; try contra.
+  all: repeat match goal with
+              | F : ?lhs = true |- _ =>
+                  match lhs with context [?x] => is_var x; lazymatch type of x with bool => destruct x end end; cbn in F; try contra
+              end.
+  all: unfold invb in H; simph; split_hyps; try contra.
+  all: repeat hstepr; unfold rejp; cbn; try reflexivity; try contra.
+Qed.
